@@ -9,6 +9,13 @@ on the real code and judged clause by clause against the statement.  The referen
 recurrence of the statement evaluated with the same IEEE-754 double operations
 (v[0] = start, v[i+1] = min(v[i]*factor, stop), 0 -> min(1, stop)); it is not derived from the code's
 default-count formula.  Reals between lattice points are not examined.
+
+Long sequences (part "long sequences"): slow factors (1.01, 1.001, 1.0001 ...) with stops placed on the values of
+the recurrence so that the reference has 2**k - 1, 2**k, 2**k + 1 values (k = 7..14 and 2**16 in the quick tier),
+1000 / 10000 (+-1) values, and n - 1, n, n + 1 values for every integer constant n found in the namespace of the
+module under test - with the default count, an explicit count just beyond the length, and 'repeat' observed beyond
+the length.  All listed lengths are executed; the lengths in between are not (that part is directed, not
+exhaustive over lengths).
 """
 import itertools
 import math
@@ -29,7 +36,8 @@ HANG_S = 10.0                       # budget for one call of the code under test
 MAX_HANGS = 2                       # per worker process: after that many hangs the remaining points are skipped
 _hangs = 0
 STEP_CAP = 200000                   # reference: give up looking for stop after this many growth steps
-JITTER_MAX_LEN = 64                 # jitter part: default-count points with a longer reference are left to the
+LONG_CONST_RANGE = (16, 50000)      # integer constants of boltons.iterutils in this range become sequence lengths
+JITTER_MAX_LEN = 64                # jitter part: default-count points with a longer reference are left to the
                                     # no-jitter part (the draws of a script only differ in the first 5 positions)
 
 
@@ -59,6 +67,10 @@ def tier_bounds(tier):
             'jitter_counts': (None, 0, 1, 3, 6, 'repeat'),
             'jitter_repeat_items': 8,
             'jitters': (True, 1.0, -1.0, 0.5, -0.5, 0.3, -0.3),
+            'long_starts': (1.0, 0.0, 0.001),
+            'long_factors': (1.01, 1.001, 1.0001),
+            'long_lengths': tuple(2 ** k for k in range(7, 15)) + (1000, 10000),
+            'long_big': ((1.0, 1.0001, 2 ** 16),),
         }
     return {
         'starts': (1.0, 0.0, 0.5, 0.25, 1.5, 3.0, 10.0, 1e6, 1e-9, 5e-324, 2.0, 7.0, 0.1, 1e3, 1e-300,
@@ -74,6 +86,11 @@ def tier_bounds(tier):
         'jitter_counts': (None, 0, 1, 2, 5, 7, 'repeat'),
         'jitter_repeat_items': 8,
         'jitters': (True, 1.0, -1.0, 0.5, -0.5, 0.3, -0.3, 0.0),
+        'long_starts': (1.0, 0.0, 0.001, 3.0, 1e-9, 1e6),
+        'long_factors': (1.01, 1.001, 1.0001, 1.005, 1.0 + 2.0 ** -10, 1.05, 1.1),
+        'long_lengths': tuple(2 ** k for k in range(5, 15)) + (100, 1000, 3000, 10000, 20000),
+        'long_big': tuple((s, f, n) for f in (1.01, 1.001, 1.0001, 1.005) for s in (1.0, 0.0, 0.001)
+                          for n in (2 ** 15, 2 ** 16, 100000, 2 ** 17)),
     }
 
 
@@ -110,6 +127,47 @@ def stops_for(start, factor, ks):
     return out
 
 
+def long_stops(start, factor, lengths):
+    """Stops that make the reference sequence exactly L - 1, L and L + 1 values long for every L in lengths:
+    the (L-1)th value of the uncapped recurrence (walked here, nothing taken from the code under test), the L-th,
+    and the L-th one ulp up (one ulp down gives L values again: left to the main lattice).  Returns ([(L, kind, stop)], [lengths the recurrence cannot reach in doubles])."""
+    lengths = sorted(set(lengths))
+    v = [float(start)]
+    while lengths and len(v) < lengths[-1]:
+        cur = v[-1]
+        nxt = 1.0 if cur == 0 else cur * factor
+        if nxt <= cur or nxt == INF:
+            break
+        v.append(nxt)
+    out, unreachable, seen = [], [], set()
+    for L in lengths:
+        if L < 3 or L > len(v):
+            unreachable.append(L)
+            continue
+        for kind, x in (('before', v[L - 2]), ('on', v[L - 1]), ('up', up(v[L - 1]))):
+            if x not in seen and x != INF:
+                seen.add(x)
+                out.append((L, kind, x))
+    return out, unreachable
+
+
+def module_int_constants():
+    """Integer constants in the namespace of the module under test (thresholds, chunk sizes, step limits ...):
+    sequence lengths around them are explored.  Found by introspection; sorted, so the order is deterministic."""
+    from boltons import iterutils
+    lo, hi = LONG_CONST_RANGE
+    found = set()
+    for name in sorted(vars(iterutils)):
+        if name.startswith('__') and name.endswith('__'):
+            continue
+        val = vars(iterutils)[name]
+        vals = val if isinstance(val, (tuple, list, set, frozenset)) else (val,)
+        for x in vals:
+            if type(x) is int and lo <= x <= hi:
+                found.add(x)
+    return sorted(found)
+
+
 # edge menu: every combination is classified by the statement's own validity predicate; it contains the
 # invalid values of each parameter next to valid ones (ints on purpose: the functions accept numbers)
 MENU = {
@@ -126,6 +184,8 @@ MENU = {
 
 class Reference:
     """v[0] = start; after 0 comes min(1, stop); otherwise v[i+1] = min(v[i]*factor, stop)."""
+
+    _last = (None, None)
 
     def __init__(self, start, stop, factor):
         self.start, self.stop, self.factor = float(start), float(stop), float(factor)
@@ -145,14 +205,19 @@ class Reference:
     def steps_to_stop(self):
         """Number of values up to and including the first one equal to stop; None when the float recurrence
         cannot get there (a step makes no progress: factor == 1, or start*factor rounds back to start)."""
+        key = (self.start, self.stop, self.factor)
+        if Reference._last[0] == key:       # the same point is asked several times in a row (long sequences)
+            return Reference._last[1]
         cur, n = self.start, 1
         while cur != self.stop:
             nxt = 1.0 if cur == 0 else cur * self.factor
             nxt = min(nxt, self.stop)
             if nxt <= cur or n > STEP_CAP:
-                return None
+                n = None
+                break
             cur = nxt
             n += 1
+        Reference._last = (key, n)
         return n
 
 
@@ -466,6 +531,22 @@ def shard_jitter(arg):
     return t
 
 
+def shard_long(arg):
+    start, factor, lengths = arg
+    t = inputs.Tally()
+    stops, unreachable = long_stops(start, factor, lengths)
+    if unreachable:
+        t.add('lengths_beyond_the_double_range_not_run', len(unreachable))
+    with Seam() as seam:
+        for L, kind, stop in stops:
+            p = {'start': start, 'stop': stop, 'count': None, 'factor': factor, 'jitter': False}
+            run_point(seam, t, p, REPEAT_ITEMS)
+            if kind == 'on':        # an explicit count / 'repeat' that runs past the arrival at stop
+                run_point(seam, t, dict(p, count=L + 3), REPEAT_ITEMS)
+                run_point(seam, t, dict(p, count='repeat'), L + 3)
+    return t
+
+
 def shard_menu(arg):
     start, stop = arg
     t = inputs.Tally()
@@ -502,6 +583,20 @@ def run(ctx):
         ctx, shard_jitter, jit, part='jitter: start x factor x stop x count x jitter x draws',
         rule='sub-lattice x every draw sequence over {0, 0.5, 1-2**-53} for the first 5 positions'))
 
+    consts = module_int_constants()
+    lengths = tuple(sorted(set(B['long_lengths']) | set(consts)))
+    longs = []
+    for factor in B['long_factors']:
+        for start in B['long_starts']:
+            longs.append((start, factor, lengths))
+    for start, factor, L in B['long_big']:
+        longs.append((start, factor, (L,)))
+    totals.append(inputs.run_shards(
+        ctx, shard_long, longs, part='long sequences: slow factor x start x stop at a given length x count',
+        rule="jitter=False; for every listed length L the stops giving L-1, L and L+1 (1 ulp up) "
+             "values, default count; at the stop giving exactly L also count=L+3 and 'repeat' observed for L+3 values; "
+             "directed: every listed length is run, lengths in between are not"))
+
     menu = [(a, b) for a in MENU['start'] for b in MENU['stop']]
     totals.append(inputs.run_shards(
         ctx, shard_menu, menu, part='edge menu: valid and invalid values of every parameter',
@@ -522,6 +617,10 @@ def run(ctx):
         'stops': 'for k = 0..k_max (jitter part: k in jitter_k): start*factor**k by repeated multiplication and by '
                  'pow, each with its two 1-ulp neighbours; plus 0.5, 1, 1+2**-52; for start = 0 the grid is built '
                  'from 1 and 0.25, 0.1, 5e-324, 0 are added; stops below start are kept (ValueError clause)',
+        'long_sequences': {'lengths': list(lengths), 'big (start, factor, length)': [list(x) for x in B['long_big']],
+                           'integer_constants_found_in_boltons.iterutils': consts,
+                           'constant_range_considered': list(LONG_CONST_RANGE),
+                           'exhaustive_over_lengths': False},
         'draws': list(DRAWS),
         'script_positions': SCRIPT_POSITIONS,
         'jitter_part_default_count_max_reference_length': JITTER_MAX_LEN,
@@ -540,6 +639,8 @@ def run(ctx):
         "count='repeat' is observed for its first %d values (8 in the jitter and menu parts)" % REPEAT_ITEMS,
         'with jitter and the default count only termination and the per-position bounds are demanded '
         '(the statement fixes the last value only for the un-jittered sequence)',
+        'long sequences (more than k_max values) are examined only at the listed lengths (powers of two, 1000, 10000, '
+        'integer constants of the module, each with its neighbours) for the listed slow factors and starts',
         'a call that does not return within %gs of CPU time is reported as a hang (never reached otherwise)' % HANG_S,
     ]
 
